@@ -454,3 +454,48 @@ func (c *Ctx) unitOfPos(p *packages.Package, pos token.Pos) (FuncUnit, bool) {
 	}
 	return FuncUnit{}, false
 }
+
+// PathOfResolved is PathOf with pointer aliases expanded: when the path's root
+// is a local pointer variable that is defined exactly once in body from an
+// expression that is itself an access path (`top := env.Runtime.Stack.Top()`),
+// the root is replaced by that path, so `top.Terminal` and
+// `env.Runtime.Stack.Top().Terminal` are recognised as the same storage.
+func PathOfResolved(info *types.Info, body ast.Node, e ast.Expr) (AccessPath, bool) {
+	p, ok := PathOf(info, e)
+	if !ok || body == nil {
+		return p, ok
+	}
+	for depth := 0; depth < 3; depth++ {
+		v, isVar := p.Root.(*types.Var)
+		if !isVar || v.IsField() || v.Parent() == nil || v.Pkg() == nil || v.Parent() == v.Pkg().Scope() {
+			return p, true
+		}
+		if _, isPtr := v.Type().Underlying().(*types.Pointer); !isPtr {
+			return p, true
+		}
+		var def ast.Expr
+		n := 0
+		ast.Inspect(body, func(m ast.Node) bool {
+			if as, ok := m.(*ast.AssignStmt); ok && len(as.Lhs) == len(as.Rhs) {
+				for i, l := range as.Lhs {
+					if id, ok := l.(*ast.Ident); ok && (info.Defs[id] == v || info.Uses[id] == v) {
+						n++
+						def = as.Rhs[i]
+					}
+				}
+			}
+			return true
+		})
+		if n != 1 || def == nil {
+			return p, true
+		}
+		q, ok := PathOf(info, def)
+		if !ok {
+			return p, true
+		}
+		q.Elems = append(append([]string(nil), q.Elems...), p.Elems...)
+		q.Last = p.Last
+		p = q
+	}
+	return p, true
+}
